@@ -360,6 +360,7 @@ func C18(r *core.Report) {
 	c18ValueBlind(r)
 	c18ErrorSliceIsOpaque(r, "C18.R10")
 	singleSourceOfTruth(r, "C18.R11")
+	epochRoutedOnlyAfterTheFilter(r, "C18.R12")
 	r.Floor("C18.R9", 2)
 	r.Floor("C18.R8", 1)
 	r.Floor("C18.R7", 1)
